@@ -225,6 +225,9 @@ func (s *Streamsql) Emit(data map[string]interface{}) {
 		return
 	}
 	if s.schemaValidator != nil {
+		// Validate fills declared defaults in place: work on a copy so the
+		// caller's map is left as it was.
+		data = copyRow(data)
 		if err := s.schemaValidator.Validate(data); err != nil {
 			n := atomic.AddInt64(&s.schemaDropped, 1)
 			if n == 1 || n%1000 == 0 {
@@ -273,12 +276,26 @@ func (s *Streamsql) EmitSync(data map[string]interface{}) (map[string]interface{
 	}
 
 	if s.schemaValidator != nil {
+		// See Emit: defaults are filled into a copy, not into the caller's map.
+		data = copyRow(data)
 		if err := s.schemaValidator.Validate(data); err != nil {
 			atomic.AddInt64(&s.schemaDropped, 1)
 			return nil, fmt.Errorf("schema validation failed: %w", err)
 		}
 	}
 	return s.stream.ProcessSync(data)
+}
+
+// copyRow returns a shallow copy of a row (nil stays nil).
+func copyRow(data map[string]interface{}) map[string]interface{} {
+	if data == nil {
+		return nil
+	}
+	cp := make(map[string]interface{}, len(data)+1)
+	for k, v := range data {
+		cp[k] = v
+	}
+	return cp
 }
 
 // SchemaDropped returns the count of rows dropped by schema validation.
